@@ -64,7 +64,9 @@ func Fingerprint(f *ssa.Function) ([]string, error) {
 						effects = append(effects, c.expr(x))
 					}
 				case *ssa.Panic:
-					lines = append(lines, strings.Join(sortedCopy(conds), " && ")+" => "+strings.Join(effects, "; ")+" ; panic("+c.expr(x.X)+")")
+					if cs, es, rr, ok := canonLine(conds, dropDeferred(effects), []string{c.expr(x.X)}); ok {
+						lines = append(lines, strings.Join(cs, " && ")+" => "+strings.Join(es, "; ")+" ; panic("+rr[0]+")")
+					}
 					return nil
 				case *ssa.Return:
 					var rs []string
@@ -142,15 +144,26 @@ func Fingerprint(f *ssa.Function) ([]string, error) {
 				} else if isEffectful(x) {
 					effects = append(effects, fp.expr(x))
 				}
+			case *ssa.Defer:
+				// a deferred call is an effect at the point where the
+				// function returns (RunDefers), in reverse order of deferral
+				effects = append(effects, deferMark+fp.callString(&x.Call))
+			case *ssa.RunDefers:
+				effects = runDeferred(effects)
 			case *ssa.Panic:
-				lines = append(lines, strings.Join(sortedCopy(conds), " && ")+" => "+strings.Join(effects, "; ")+" ; panic("+fp.expr(x.X)+")")
+				if cs, es, rr, ok := canonLine(conds, dropDeferred(effects), []string{fp.expr(x.X)}); ok {
+					lines = append(lines, strings.Join(cs, " && ")+" => "+strings.Join(es, "; ")+" ; panic("+rr[0]+")")
+				}
 				return nil
 			case *ssa.Return:
 				var rs []string
 				for _, r := range x.Results {
 					rs = append(rs, fp.expr(r))
 				}
-				lines = append(lines, strings.Join(sortedCopy(conds), " && ")+" => "+strings.Join(effects, "; ")+" ; return ("+strings.Join(rs, ", ")+")")
+				effs, rs := resolveSpills(dropDeferred(effects), rs)
+				if cs, es, rr, ok := canonLine(conds, effs, rs); ok {
+					lines = append(lines, strings.Join(cs, " && ")+" => "+strings.Join(es, "; ")+" ; return ("+strings.Join(rr, ", ")+")")
+				}
 				return nil
 			case *ssa.If:
 				if hc, t, ok := helperCall(x.Cond, true); ok {
@@ -231,6 +244,34 @@ func Fingerprint(f *ssa.Function) ([]string, error) {
 							}
 							if err != nil {
 								return err
+							}
+						}
+						return nil
+					}
+				}
+				if hc, idx, t, ok := helperBoolComponent(x.Cond, true); ok {
+					// "v, ok := helper(..); if ok": one path of the caller per
+					// path of the helper, with the values it returns there
+					tp, ok1 := fp.helperPathsOn(hc.Call.StaticCallee(), hc.Call.Args, idx, false, t)
+					fpths, ok2 := fp.helperPathsOn(hc.Call.StaticCallee(), hc.Call.Args, idx, false, !t)
+					if ok1 && ok2 {
+						for k, set := range [][][]string{tp, fpths} {
+							for _, pa := range set {
+								atoms, res := splitHelperPath(pa)
+								if fp.override == nil {
+									fp.override = map[ssa.Value]string{}
+								}
+								prev, had := fp.override[hc]
+								fp.override[hc] = res
+								err := walk(b.Succs[k], b, append(append([]string{}, conds...), atoms...), append([]string{}, effects...), visited)
+								if had {
+									fp.override[hc] = prev
+								} else {
+									delete(fp.override, hc)
+								}
+								if err != nil {
+									return err
+								}
 							}
 						}
 						return nil
@@ -419,6 +460,12 @@ func usedInCond(v ssa.Value, depth int) bool {
 		case *ssa.BinOp:
 			switch x.Op {
 			case token.EQL, token.NEQ, token.LSS, token.LEQ, token.GTR, token.GEQ:
+				// a comparison with a numeric constant is decided per path of
+				// the helper once the helper is walked in place (the value it
+				// returns on the path is compared with the constant)
+				if isNumConst(x.X) || isNumConst(x.Y) {
+					continue
+				}
 				if usedInCond(x, depth+1) {
 					return true
 				}
@@ -501,6 +548,7 @@ func (fp *fingerprinter) helperPathsOn(g *ssa.Function, args []ssa.Value, idx in
 	if fp.depth >= 3 || len(g.Blocks) > 40 {
 		return nil, false
 	}
+	c := fp.child(g, args)
 	for _, b := range g.Blocks {
 		for _, in := range b.Instrs {
 			switch x := in.(type) {
@@ -510,13 +558,15 @@ func (fp *fingerprinter) helperPathsOn(g *ssa.Function, args []ssa.Value, idx in
 						continue
 					}
 				}
+				if c.definesLocal(x) {
+					continue // "l := p.List()": a local, rendered by its definition
+				}
 				return nil, false
 			case *ssa.MapUpdate, *ssa.Send, *ssa.Go, *ssa.Defer:
 				return nil, false
 			}
 		}
 	}
-	c := fp.child(g, args)
 	var paths [][]string
 	bad := false
 	var walk func(b, pred *ssa.BasicBlock, conds []string, visited map[*ssa.BasicBlock]bool)
@@ -534,7 +584,7 @@ func (fp *fingerprinter) helperPathsOn(g *ssa.Function, args []ssa.Value, idx in
 		c.pred[b] = pred
 		switch x := b.Instrs[len(b.Instrs)-1].(type) {
 		case *ssa.Return:
-			if idx >= len(x.Results) || (!nilMode && len(x.Results) != 1) {
+			if idx >= len(x.Results) {
 				bad = true
 				return
 			}
@@ -570,7 +620,7 @@ func (fp *fingerprinter) helperPathsOn(g *ssa.Function, args []ssa.Value, idx in
 					rc = []string{fmt.Sprintf("%s %s %s", a, op, b)}
 				}
 			} else {
-				rc = c.cond(x.Results[0], truth)
+				rc = c.cond(x.Results[idx], truth)
 				for _, a := range rc {
 					if a == "false" {
 						return // this path yields the other truth value
@@ -760,6 +810,30 @@ func helperCall(v ssa.Value, truth bool) (*ssa.Call, bool, bool) {
 	return nil, truth, false
 }
 
+// helperBoolComponent: v (under !) is a boolean component of the result tuple
+// of a new helper ("x, ok := helper(..); if !ok").
+func helperBoolComponent(v ssa.Value, truth bool) (*ssa.Call, int, bool, bool) {
+	for {
+		if u, ok := v.(*ssa.UnOp); ok && u.Op == token.NOT {
+			v, truth = u.X, !truth
+			continue
+		}
+		break
+	}
+	ex, ok := v.(*ssa.Extract)
+	if !ok {
+		return nil, 0, truth, false
+	}
+	if b, isBasic := ex.Type().Underlying().(*types.Basic); !isBasic || b.Kind() != types.Bool {
+		return nil, 0, truth, false
+	}
+	c, ok := ex.Tuple.(*ssa.Call)
+	if !ok || !isNewHelper(c.Call.StaticCallee()) {
+		return nil, 0, truth, false
+	}
+	return c, ex.Index, truth, true
+}
+
 func typeName(t types.Type) string {
 	return types.TypeString(t, func(p *types.Package) string {
 		if p.Path() == "capnproto.org/go/capnp/v3" {
@@ -791,7 +865,26 @@ func (fp *fingerprinter) cond(v ssa.Value, truth bool) []string {
 			if !truth {
 				op = negate(op)
 			}
+			if !fp.short && isUnsigned(x.X.Type()) {
+				// normal forms: for an unsigned x, "0 < x" is "x != 0" and
+				// "x <= 0" is "x == 0"
+				zx, zy := isZeroConst(x.X), isZeroConst(x.Y)
+				switch {
+				case (op == token.LSS && zx) || (op == token.GTR && zy):
+					op = token.NEQ
+				case (op == token.LEQ && zy) || (op == token.GEQ && zx):
+					op = token.EQL
+				}
+			}
 			a, b := fp.expr(x.X), fp.expr(x.Y)
+			if t, decided := foldConstCmp(a, op, b); decided {
+				// both sides are constants on this path (a helper walked in
+				// place returned one): the test is true, or the path infeasible
+				if t {
+					return nil
+				}
+				return []string{"false"}
+			}
 			if fp.derive && op != token.EQL && op != token.NEQ {
 				// x < min(u, v) gives x < u and x < v (the minimum written as
 				// "m := u; if v < m { m = v }")
@@ -824,6 +917,18 @@ func (fp *fingerprinter) cond(v ssa.Value, truth bool) []string {
 		if g := x.Call.StaticCallee(); isNewHelper(g) {
 			if atoms, ok := fp.helperCond(g, x.Call.Args, truth); ok {
 				return atoms
+			}
+		}
+	case *ssa.Extract:
+		if hc, idx, t, ok := helperBoolComponent(x, truth); ok {
+			if paths, ok := fp.helperPathsOn(hc.Call.StaticCallee(), hc.Call.Args, idx, false, t); ok {
+				if atoms, ok := intersectPaths(paths); ok {
+					s := fp.expr(v)
+					if !truth {
+						s = "!" + s
+					}
+					return append(atoms, s)
+				}
 			}
 		}
 	case *ssa.Phi:
@@ -973,6 +1078,15 @@ func (fp *fingerprinter) expr(v ssa.Value) string {
 		}
 		if op == token.ADD && a == "<str>" && b == "<str>" {
 			return "<str>" // a message assembled from constant strings
+		}
+		if op == token.MUL {
+			// x * 1 is x (a width that happens to be one byte)
+			if strings.HasPrefix(a, "1:") && reNumConst.MatchString(a) {
+				return b
+			}
+			if strings.HasPrefix(b, "1:") && reNumConst.MatchString(b) {
+				return a
+			}
 		}
 		return fmt.Sprintf("(%s %s %s)", a, op, b)
 	case *ssa.UnOp:
